@@ -76,5 +76,17 @@ CLAIMS["C09"] = {
     "note": "Repaired in /repo: state during the minute before clocks are set back (b0d5731), datetime overshooting gaps that do not end on a whole minute (walk-back). Open: zone-not-ok (a gap directly followed by a fold, e.g. Europe/Lisbon 1992: result one hour after the first valid instant); the empty interval from a local span inside a gap is C02's clause (D16, open there). Cannot exhibit: the correctness of the tz database itself.",
     "technique": "Lean 4 theorems on a transition-table zone model + correspondence with chrono-tz tables + clauses evaluated on the implementation's instants",
 }
+CLAIMS["C07"] = {
+    "text": "FULL Lean theorem (C07_normalize_preserves): for every expression in the parser's range (ExprOK), every context, every day and every minute, the day schedule of the normalized expression has the same state as the original's — by paving laws proved by induction on the dimension, canonical selector membership = the evaluator model's filters (with the real calendar lemmas), fold of the canonical prefix = pointwise reading of the rule combination, emitted rules fold back to the same function, the untouched tail cannot tell the prefixes apart. Tie to the code: normalize() of the real code compared as AST with the model on every line, and both implementation ASTs evaluated and compared per minute.",
+    "design_ref": "§5 C07",
+    "note": "Trusted: Lean kernel + standard axioms; hand-written models OH/Model/{Normalize,Eval}.lean; harness/driver. Repaired in /repo on the way: D13 (is_val early return, 18307f0), D12, D18 (the proof needed them). Comment-only differences (the evaluator hands the comments of an overwritten range to the overwriting one, the paving replaces) are not state differences and are tagged, not failed.",
+    "technique": "Lean 4 theorems (type-class induction on the paving dimension, refinement of the rule fold) + AST correspondence of normalize + per-minute meaning oracle",
+}
+CLAIMS["C13"] = {
+    "text": "FULL Lean theorems: normalize(normalize e) = normalize e, determinism, no panic/overflow and termination of canonical_to_seq (proved measure), normal form within the parser's ranges; popFilter depends only on the function the paving denotes. Tie to the code: idempotence and determinism checked on the implementation's ASTs, AST equality with the model. The 'printable and reparseable' clause is evaluated by reparsing the printed normal form: open finding D21 (a year with several month ranges has no sentence in the grammar).",
+    "design_ref": "§5 C13",
+    "note": "Trusted as for C07. D13 repaired in /repo (it refuted idempotence before: C13_idempotent_before_repair_fails). Open: D21-normalform-year-months.",
+    "technique": "Lean 4 theorems on the normalization model + AST-level correspondence and idempotence oracle",
+}
 ALL = [f"C{i:02d}" for i in range(1, 21)]
 NOT_APPLICABLE = {p: PENDING for p in ALL if p not in CLAIMS}
